@@ -2,23 +2,22 @@
 (* Trace specification for C14.  "install": the harness really is in the locale it claims (the
    comma locale prints 1,500000).  "parse": whatever the outcome class, the calling thread's locale
    handle and its numeric behaviour are the same after the call, no locale object is left alive,
-   the libc locale calls json-c made form one of the paths of the Locale module
-   (q = uselocale(NULL), d/D = duplocale ok/failed, n/N = newlocale ok/failed, u = uselocale(obj),
-   f = freelocale), and status and value are those of the same call in the C locale (an injected
+   (also between the calls of a chunked parse), and status and value are those of the same call in the C locale (an injected
    duplocale/newlocale failure gives the out-of-memory status and no value).  "ser": serialization
    is byte-identical to the C locale's and leaves the locale alone. *)
 EXTENDS Naturals, Integers, Sequences, TLC, Json, IOUtils
 VARIABLES st, l
 Comma(p) == \E i \in 1..Len(p) : p[i] = 44
-\* paths of Locale.tla: size guard | dup fails | new fails (dup freed) | full bracket
-Paths == {"", "q", "qD", "qdNf", "qdnuuf"}
+\* What C14 states, and no more: how json-c reaches it (which libc calls, in which order - the paths of Locale.tla)
+\* is not prescribed; an implementation that skips the switch where it is not needed conforms as long as results
+\* are those of the C locale.  A failure injected into duplocale / newlocale counts only when it was actually hit.
 ParseOk(r) ==
-    /\ r.handle_same /\ r.probe_before = r.probe_after /\ r.loc_leak = 0
-    /\ r.calls \in Paths
-    /\ IF r.ref_st = "size" THEN r.st = "size" /\ r.calls \in {"", "q"}
-       ELSE IF r.inject = 1 THEN r.st = "memory" /\ r.val.t = "null" /\ r.calls = "qD"
-       ELSE IF r.inject = 2 THEN r.st = "memory" /\ r.val.t = "null" /\ r.calls = "qdNf"
-       ELSE r.st = r.ref_st /\ r.val = r.ref_val /\ r.calls = "qdnuuf"
+    /\ r.handle_same /\ r.every_call_ok /\ r.probe_before = r.probe_after /\ r.loc_leak = 0
+    /\ IF r.ref_st = "size" THEN r.st = "size"
+       ELSE IF r.hit_dup_fail \/ r.hit_new_fail THEN r.st = "memory" /\ r.val.t = "null"
+       ELSE r.st = r.ref_st /\ r.val = r.ref_val
+\* the libc call path is one of Locale.tla's (reported, not judged)
+Paths == {"", "q", "qD", "qdNf", "qdnuuf"}
 InstallOk(r) == r.installed /\ (Comma(r.probe) <=> r.loc = "xx_COMMA")
 SerOk(r) == r.text = r.ref /\ r.probe_before = r.probe_after /\ (Comma(r.probe_after) <=> r.loc = "xx_COMMA")
 StepOfImpl(s, r) == [ok |-> CASE r.e = "parse" -> ParseOk(r) /\ (Comma(r.probe_before) <=> r.loc = "xx_COMMA")
